@@ -17,6 +17,9 @@ mutated through self are state outside the instance; a local standing for a
 stored setting counts as that setting in the sticky-settings rule.
 Round 5 (hunt): a solver restored from the periodic dump of its last generation
 is finalized by the next Step (shared with C04.o).
+Round 6: a re-decorated objective keeps counting from the stored count; the
+best point is stored as a copy, never a view of a member; Solve / Step
+overrides hand the caller's keywords on unchanged.
 NOT decided: bit-equality of continued trajectories, RNG state (premise), bytes.
 """
 import ast
@@ -677,3 +680,82 @@ def a_restored_stopped_solver_is_finalized(ctx):
     """the periodic SetSaveFrequency dump of the LAST generation is written inside _Step, before Step evaluates Terminated() and calls Finalize(): restored from it, the solver is terminated but not finalized - continuing it must still log Powell's pending record and end 'not live', exactly like the uninterrupted run. Step therefore finalizes a solver it finds already terminated on entry (path rule shared with C04.o)"""
     from .c04 import a_solver_found_stopped_is_finalized
     a_solver_found_stopped_is_finalized(ctx)
+
+
+@rule('C06.j', min_instances=4)
+def a_redecorated_objective_keeps_counting_from_the_stored_count(ctx):
+    """"each keeps counting its own evaluations": a restored solver re-decorates its objective (second Solve, larger budget); the counter cell then starts at the `start` it is given - the count the solver stored - not at the length of the evaluation monitor, which holds only what was recorded since it was attached (shared with C04.a)"""
+    from .c04 import counter_bound_around_raw_cost
+    counter_bound_around_raw_cost(ctx)
+
+
+@rule('C06.k', min_instances=4)
+def the_best_point_is_a_copy_not_a_view_of_a_member(ctx):
+    """a checkpoint (pickle / deepcopy) does not preserve the fact that two attributes are views of one array: wherever a solver stores its best point from the population or the trial it stores a COPY (x.copy(), copy(x), array(x), or an element-wise store into the existing array) - `self.bestSolution = self.population[i][:]` is a view for an ndarray, the live solver then moves its best point whenever that member moves while the restored one does not, and the two runs diverge"""
+    n = 0
+    for anchor in ('mystic.differential_evolution:DifferentialEvolutionSolver', 'mystic.differential_evolution:DifferentialEvolutionSolver2',
+                   'mystic.scipy_optimize:NelderMeadSimplexSolver', 'mystic.scipy_optimize:PowellDirectionalSolver', AS):
+        k = ctx.cls(anchor)
+        for name, m in sorted(k.methods.items()):
+            sn = selfname_of(m)
+            local = {}
+            for st in stmts_of(m.node):
+                if isinstance(st, ast.Assign) and len(st.targets) == 1 and isinstance(st.targets[0], ast.Name):
+                    local[st.targets[0].id] = st.value
+                if not (isinstance(st, ast.Assign) and any(isinstance(t_, ast.Attribute) and t_.attr in ('bestSolution', '_bestSolution') and isinstance(t_.value, ast.Name) and t_.value.id == sn for t_ in st.targets)):
+                    continue
+                n += 1
+                ctx.touch(m)
+
+                def views(e, depth=0):
+                    """sub-expressions of e that can be a view of self.population / self.trialSolution (may alias)"""
+                    if isinstance(e, ast.IfExp):
+                        return views(e.body, depth) + views(e.orelse, depth)
+                    if isinstance(e, ast.Name) and e.id in local and depth < 3:
+                        return views(local[e.id], depth + 1)
+                    if isinstance(e, ast.Subscript):
+                        root = e
+                        while isinstance(root, ast.Subscript):
+                            root = root.value
+                        if isinstance(root, ast.Attribute) and root.attr in ('population', 'trialSolution') and isinstance(root.value, ast.Name) and root.value.id == sn:
+                            return [e]
+                        if isinstance(root, ast.Name) and root.id in local and depth < 3:
+                            return [e] if views(local[root.id], depth + 1) else []
+                    return []
+                v = st.value
+                found = views(v)
+                # `x.copy() if hasattr(x, 'copy') else x[:]` : the slice is only taken of objects without .copy (lists), where it IS a copy
+                if isinstance(v, ast.IfExp) and 'hasattr' in unparse(v.test) and "'copy'" in unparse(v.test):
+                    found = views(v.body)
+                ctx.check(not found, '%s.%s#best@%d' % (k.name, name, n), 'the best point is stored as a copy',
+                          '%s.%s stores %s as the best point: for an ndarray that is a view of the member / trial array, so the live solver\'s best point changes whenever that array is written, '
+                          'while a restored or deep-copied solver holds two separate arrays - the resumed run diverges from the uninterrupted one' % (k.name, name, unparse(found[0])[:50] if found else ''), m, st)
+    ctx.need(n >= 4, 'expected >= 4 stores of the best point in the solver classes, found %d' % n)
+
+
+@rule('C06.l', min_instances=4)
+def resuming_does_not_reset_sticky_settings(ctx):
+    """a restored solver resumed with a bare Solve() / Step() continues with the run settings stored in the checkpoint (radius, adaptive, xtol, imax, strategy, ...): no Solve / Step / _Solve / _Step override writes a value for such a key into the caller's keywords before they reach _process_inputs (`kwds.setdefault('adaptive', False)` makes every resumed Solve() overwrite the stored setting with the default)"""
+    n = 0
+    for anchor in ('mystic.differential_evolution:DifferentialEvolutionSolver', 'mystic.differential_evolution:DifferentialEvolutionSolver2',
+                   'mystic.scipy_optimize:NelderMeadSimplexSolver', 'mystic.scipy_optimize:PowellDirectionalSolver', AS):
+        k = ctx.cls(anchor)
+        for name in ('Solve', 'Step', '_Solve', '_Step'):
+            m = k.methods.get(name)
+            if m is None:
+                continue
+            kw = m.node.args.kwarg.arg if m.node.args.kwarg else None
+            if kw is None:
+                continue
+            n += 1
+            ctx.touch(m)
+            bad = None
+            for c in ast.walk(m.node):
+                if isinstance(c, ast.Call) and isinstance(c.func, ast.Attribute) and isinstance(c.func.value, ast.Name) and c.func.value.id == kw and c.func.attr in ('setdefault', 'update', '__setitem__'):
+                    bad = c
+                if isinstance(c, ast.Subscript) and isinstance(c.ctx, ast.Store) and isinstance(c.value, ast.Name) and c.value.id == kw:
+                    bad = c
+            ctx.check(bad is None, '%s.%s#keywords' % (k.name, name), 'the caller\'s keywords reach _process_inputs as given',
+                      '%s.%s writes into the caller\'s keywords (%s): a resumed Solve() / Step() without that keyword then carries the written value, and _process_inputs stores it over the setting the checkpoint holds'
+                      % (k.name, name, unparse(bad)[:60] if bad is not None else ''), m, enclosing_stmt(bad) if bad is not None else m.node)
+    ctx.need(n >= 4, 'expected >= 4 Solve / Step implementations with keyword settings, found %d' % n)
